@@ -873,6 +873,10 @@ func rejectCases() []jCase {
 		add("PIN", v.String())
 		out = append(out, jCase{Type: "PINNumber", Reject: true, Text: v.String()})
 	}
+	// digits of other scripts (they ARE digits to unicode.IsDigit, and short enough in bytes): no PIN, no date, no time of day
+	add("PIN", "٣", "١٢٣", "1٠", "１２", "१२", "٠", "９", "12٣", "๑๒")
+	add("HHmm", "١٢:٣٠", "12:٣0", "１２:３０")
+	add("Date", "٢٠٢٤-٠١-٠١", "2024-0١-01")
 	// PINs of more than six digits written as bare JSON numbers (whatever a decoder makes of in-range numbers, these are no PINs)
 	for _, n := range []string{"1000000", "1234567", "98765432", "999999999", "4294967295", "4294967296", "10000000000"} {
 		out = append(out, jCase{Type: "PINNumber", Reject: true, Text: n})
